@@ -183,6 +183,12 @@ func (ts *timeSeries) AddWithTime(observation Observable, t time.Time) {
 		ts.advance(t)
 		ts.mergePendingUpdates()
 		ts.pendingTime = ts.levels[0].end
+		if !t.After(ts.pendingTime.Add(-1 * smallBucketDuration)) {
+			// A query has already advanced the series beyond t:
+			// t does not belong to the newest bucket.
+			ts.mergeValue(observation, t)
+			return
+		}
 		ts.pending.CopyFrom(observation)
 		ts.dirty = true
 	} else if t.After(ts.pendingTime.Add(-1 * smallBucketDuration)) {
